@@ -44,6 +44,40 @@ def run(ctx, chk):
     from .c13 import previous_locales_flag_rule
     previous_locales_flag_rule(ctx, chk, "C03.R6")
     r7(ctx, chk)
+    r8(ctx, chk)
+
+
+def r8(ctx, chk):
+    """per-call state hung on a long-lived object (`self._dictionary._settings = settings`) must be refreshed on EVERY access:
+    a store of a parameter-dependent value into a field of a lazily created object must not sit under that object's creation
+    guard, or the first caller's value serves every later caller"""
+    rule = "C03.R8"
+    from ..core.ctx import conjuncts, enclosing_tests
+    from ..core.heap import Heap
+    from . import c20
+    heap = ctx.memo("heap", lambda: Heap(ctx))
+    reach = ctx.cg.reachable(c20.ENTRIES)
+    n = 0
+    for f, node, kind, target, why in heap.writes(reach):
+        if kind != "attr" or not isinstance(node, ast.Assign):
+            continue
+        tg = node.targets[0]
+        if not (isinstance(tg, ast.Attribute) and isinstance(tg.value, ast.Attribute) and isinstance(tg.value.value, ast.Name) and tg.value.value.id == "self"):
+            continue
+        params = set(f.params()) - {"self", "cls"}
+        if not ({x.id for x in ast.walk(node.value) if isinstance(x, ast.Name)} & params):
+            continue
+        n += 1
+        place = ast.unparse(tg.value)
+        under_creation = any(
+            (isinstance(a, ast.Compare) and ast.unparse(a.left) == place and ast.unparse(a.comparators[0]) == "None" and (
+                (p and isinstance(a.ops[0], ast.Is)) or (not p and isinstance(a.ops[0], ast.IsNot)))) or (ast.unparse(a) == place and not p)
+            for t, pol in enclosing_tests(f.node, node) for a, p in conjuncts(t, pol))
+        chk.ob(rule, "%s: `%s` is refreshed on every access, not only when %s is created" % (f.qual, " ".join(ast.unparse(node).split())[:60], place),
+               not under_creation,
+               "the caller-dependent value is stored only while creating %s: every later call gets the first caller's %s" % (place, tg.attr),
+               key={"function": f.key, "construct": "refresh of %s.%s" % (place, tg.attr)}, file=f.file, function=f.qual, line=node.lineno)
+    chk.floor(rule, n, 2, "caller-dependent fields hung on long-lived objects")
 
 
 def r7(ctx, chk):
